@@ -65,6 +65,8 @@ def op_term(p, o):
     if k == 'addsubdec': return '(OAddSubDec %s %d%%nat)' % (n(o['id']), o.get('fails', 0))
     if k == 'stop': return '(OStop %s)' % n(ids[o.get('name', '')])
     if k == 'start': return 'OStart'
+    if k == 'startasync': return 'OStartAsync'
+    if k == 'snap': return '(OSnap %s)' % n(ids[o.get('name', '')])
     if k == 'deliver':
         d = o['d']
         outs = nl(d.get('outs') or [])
@@ -86,6 +88,8 @@ def describe(p, tab=None):
         elif k == 'addhmw': ops.append(('[in window] ' if o.get('win') else '') + 'Handler(%r).AddMiddleware(mw%d%s)' % (o.get('name', ''), o['id'], ' appends msg %d' % (100 + o['id']) if o.get('app') else ''))
         elif k == 'addmw': ops.append('Router.AddMiddleware(mw%d%s)' % (o['id'], ' appends msg %d' % (100 + o['id']) if o.get('app') else ''))
         elif k == 'start': ops.append('Run / RunHandlers' + (' (a decorator constructor fails: returns an error)' if o.get('fail') else ''))
+        elif k == 'startasync': ops.append('Run / RunHandlers returns; the goroutines of %s are held before their copy of r.middlewares' % o.get('names'))
+        elif k == 'snap': ops.append('handler %r copies r.middlewares now' % o.get('name', ''))
         elif k == 'stop': ops.append('Handler(%r).Stop()%s' % (o.get('name', ''), ' — the following [in window] ops run as soon as the name is free, before Stopped() closes' if o.get('early') else ', wait for Stopped()'))
         else: ops.append('%s(%d)%s' % (k, o['id'], ' constructor fails %d time(s)' % o['fails'] if o.get('fails') else ''))
     return dict(kind=p['kind'], subscriber_types=p['subty'], publisher_types=p['pubty'], program=ops,
@@ -96,12 +100,13 @@ def stats(res, p):
     hs = [o['h'] for o in p['ops'] if o['k'] == 'addhandler' and not o.get('dup')]
     res.count('programs=%s' % p['kind'])
     res.count('handlers=%d' % len(hs))
-    res.count('starts=%d' % sum(1 for o in p['ops'] if o['k'] == 'start'))
+    res.count('starts=%d' % sum(1 for o in p['ops'] if o['k'] in ('start', 'startasync')))
     regs = sum(1 for o in p['ops'] if o['k'] in ('addmw', 'addhmw'))
     res.count('middleware_registrations=%s' % (regs if regs < 7 else '7-12' if regs < 13 else '13+'))
     res.count('pub_decorators=%d' % min(5, sum(1 for o in p['ops'] if o['k'] == 'addpubdec')))
     res.count('sub_decorators=%d' % min(5, sum(1 for o in p['ops'] if o['k'] == 'addsubdec')))
     if any(o.get('dup') for o in p['ops']): res.count('duplicate_handler_name_attempts')
+    if p.get('snaps'): res.count('programs_registering_between_RunHandlers_return_and_the_copy_of_r.middlewares'); res.count('handler_goroutines_really_held_before_their_copy', p['snaps'])
     nstop = sum(1 for o in p['ops'] if o['k'] == 'stop')
     if nstop: res.count('programs_with_Handler.Stop'); res.count('handler_stops', nstop)
     if any(o.get('win') and o['k'] == 'addhandler' for o in p['ops']): res.count('names_re-added_inside_the_teardown_window(generated)')
@@ -145,6 +150,8 @@ def shape(p):
         elif k == 'addpubdec': s.append('P%d' % o.get('fails', 0))
         elif k == 'addsubdec': s.append('S%d' % o.get('fails', 0))
         elif k == 'start': s.append('!x' if o.get('fail') else '!')
+        elif k == 'startasync': s.append('!~')
+        elif k == 'snap': s.append('~' + o.get('name', ''))
         elif k == 'stop': s.append(('Z' if o.get('early') else 'z') + o.get('name', ''))
     return tuple(s)
 
